@@ -3,8 +3,11 @@
   arbitrary linear ordered field (ℚ, ℝ, …).  Single Mathlib modules only.
 
   `allcloseQ fixed` is the model of `unyt.array.allclose_units` that the driver executes
-  (`UnytModel/Testing.lean`); `fixed = false` is the pinned commit (a bare `atol` is read in
-  `actual`'s unit), `fixed = true` the repaired code (bare `atol` read in `desired`'s own unit).
+  (`UnytModel/Testing.lean`); `fixed = true` is the code after `fix: allclose_units read a bare
+  atol in actual's units` (bare `atol` read in `desired`'s own unit), `fixed = false` the code
+  before it, kept so that the model can follow — and the harness can name — a regression; which
+  one is live is the flag `Generated.bareAtolInDesiredUnit`, and `C19_allclose_full` needs it
+  to be `true`.
   `Ref.allcloseSpec` is the hand-written specification on SI magnitudes.
 -/
 import Mathlib.Algebra.Order.Field.Basic
@@ -79,14 +82,17 @@ theorem atolUnit_offset (fixed : Bool) (a d : TUnit K) (atol : Tol K) (ha : a.of
 /-- with zero offsets, bringing `atol` to `actual`'s unit multiplies it by the ratio of the scale
     of the unit it is read in (`atolUnit`) to `actual`'s scale — in both variants -/
 theorem atolInActualUnit_linear (fixed : Bool) (a d : TUnit K) (atol : Tol K)
-    (ha : a.offset = 0) (ht : TolLinear atol) (hdim : (atolUnit fixed a d atol).dim = a.dim) :
+    (ha : a.offset = 0) (hd0 : d.offset = 0) (ht : TolLinear atol)
+    (hdim : (atolUnit fixed a d atol).dim = a.dim) :
     atolInActualUnit fixed a d atol
       = some (atol.value * ((atolUnit fixed a d atol).scale / a.scale)) := by
   cases atol with
   | bare x =>
     cases fixed
     · simp [atolInActualUnit, atolUnit, bareAtolUnit, Tol.value, convVal_linear _ _ _ ha ha]
-    · simp [atolInActualUnit, atolUnit, bareAtolUnit, Tol.value]
+    · simp only [atolInActualUnit, atolUnit, bareAtolUnit, Tol.value, if_true,
+        convVal_linear _ _ _ hd0 ha]
+      congr 1; ring
   | qty x u =>
     have hu : u.offset = 0 := ht
     have hd : (u.dim != a.dim) = false := by
@@ -122,11 +128,11 @@ theorem allcloseQ_iff_si (fixed : Bool) (act des : Qty K) (rtol : K) (atol : Tol
   have hau := atolUnit_offset fixed act.unit des.unit atol hoa hod hot
   unfold allcloseQ inUnits
   have hr : (rtolDim (Tol.bare rtol : Tol K) != Dim.one) = false := by simp [rtolDim]
-  have hv : (Tol.bare rtol : Tol K).value = rtol := rfl
+  have hv : rtolNumber (Tol.bare rtol : Tol K) = rtol := rfl
   by_cases hd : des.unit.dim = act.unit.dim
   · have hd' : (des.unit.dim != act.unit.dim) = false := by simp [hd]
     by_cases ht : (atolUnit fixed act.unit des.unit atol).dim = act.unit.dim
-    · have hconv := atolInActualUnit_linear fixed act.unit des.unit atol hoa hot ht
+    · have hconv := atolInActualUnit_linear fixed act.unit des.unit atol hoa hod hot ht
       have h := npAllclose_map_iff rtol
         (atol.value * ((atolUnit fixed act.unit des.unit atol).scale / act.unit.scale)) id
         (convVal des.unit act.unit) act.vals des.vals
@@ -171,14 +177,6 @@ def AllcloseSpecHolds (act des : Qty K) (rtol : K) (atol : Tol K) : Prop :=
       act.unit.scale des.unit.scale
       (Ref.atolReadIn (tolOwn atol) (des.unit.dim, des.unit.scale)).2 rtol atol.value ps
 
-/-- the same with a bare `atol` read in `actual`'s unit — what the pinned commit implements -/
-def AllcloseSpecActualUnit (act des : Qty K) (rtol : K) (atol : Tol K) : Prop :=
-  ∃ ps, broadcast2 act.vals des.vals = some ps ∧
-    Ref.allcloseSpec act.unit.dim des.unit.dim
-      (Ref.atolReadIn (tolOwn atol) (act.unit.dim, act.unit.scale)).1
-      act.unit.scale des.unit.scale
-      (Ref.atolReadIn (tolOwn atol) (act.unit.dim, act.unit.scale)).2 rtol atol.value ps
-
 /-- "the unit this tolerance is read in has a positive scale" for a tolerance with a unit -/
 def TolScalePos : Tol K → Prop
   | .bare _ => True
@@ -187,11 +185,6 @@ def TolScalePos : Tol K → Prop
 theorem atolUnit_true (a d : TUnit K) (atol : Tol K) :
     (atolUnit true a d atol).dim = (Ref.atolReadIn (tolOwn atol) (d.dim, d.scale)).1 ∧
     (atolUnit true a d atol).scale = (Ref.atolReadIn (tolOwn atol) (d.dim, d.scale)).2 := by
-  cases atol <;> simp [atolUnit, bareAtolUnit, Ref.atolReadIn, tolOwn]
-
-theorem atolUnit_false (a d : TUnit K) (atol : Tol K) :
-    (atolUnit false a d atol).dim = (Ref.atolReadIn (tolOwn atol) (a.dim, a.scale)).1 ∧
-    (atolUnit false a d atol).scale = (Ref.atolReadIn (tolOwn atol) (a.dim, a.scale)).2 := by
   cases atol <;> simp [atolUnit, bareAtolUnit, Ref.atolReadIn, tolOwn]
 
 /-- **`allclose_iff_spec` (repaired variant).**  With a bare `atol` read in `desired`'s own unit,
@@ -220,75 +213,27 @@ theorem allclose_iff_spec (act des : Qty K) (rtol : K) (atol : Tol K)
   · rintro ⟨ps, hps, h1, h2, hall⟩
     exact ⟨ps, hps, h1, h2, fun p hp => Or.inl (hall p hp)⟩
 
-/-- **what the pinned commit computes**: the same contract but with a bare `atol` read in
-    `actual`'s unit -/
-theorem allclose_unrepaired_iff_actual_unit_spec (act des : Qty K) (rtol : K) (atol : Tol K)
-    (hsa : 0 < act.unit.scale) (hst : TolScalePos atol)
-    (hoa : act.unit.offset = 0) (hod : des.unit.offset = 0) (hot : TolLinear atol)
-    (hr : 0 ≤ rtol) (ha : 0 ≤ atol.value) :
-    allcloseQ false act des (.bare rtol) atol = .ok true ↔
-      AllcloseSpecActualUnit act des rtol atol := by
-  rw [allcloseQ_iff_si false act des rtol atol hsa hoa hod hot]
-  obtain ⟨e1, e2⟩ := atolUnit_false act.unit des.unit atol
-  have hpos : 0 ≤ atol.value * (atolUnit false act.unit des.unit atol).scale := by
-    apply mul_nonneg ha
-    cases atol with
-    | bare x => simpa [atolUnit, bareAtolUnit] using hsa.le
-    | qty x u => simpa [atolUnit, TolScalePos] using hst.le
-  unfold AllcloseSpecActualUnit Ref.allcloseSpec
-  rw [← e1, ← e2]
-  constructor
-  · rintro ⟨ps, hps, h1, h2, hall⟩
-    refine ⟨ps, hps, h1, h2, fun p hp => ?_⟩
-    rcases hall p hp with h | h
-    · exact h
-    · exact closeSI_of_eq _ _ _ _ hr hpos h
-  · rintro ⟨ps, hps, h1, h2, hall⟩
-    exact ⟨ps, hps, h1, h2, fun p hp => Or.inl (hall p hp)⟩
-
-/-- where the pinned commit is right anyway: `atol` carries its own unit, or is zero, or the two
-    arguments are written in units of the same scale -/
-def UnrepairedGuard (act des : Qty K) (atol : Tol K) : Prop :=
-  match atol with
-  | .qty _ _ => True
-  | .bare x => x = 0 ∨ act.unit.scale = des.unit.scale
-
-instance (act des : Qty K) (atol : Tol K) : Decidable (UnrepairedGuard act des atol) := by
-  unfold UnrepairedGuard; cases atol <;> infer_instance
-
-/-- **`allclose_iff_spec_partial`**: for either variant of the code (`fixed` arbitrary — in
-    particular for the live flag) the verdict is the documented one inside the guard -/
-theorem allclose_iff_spec_partial (fixed : Bool) (act des : Qty K) (rtol : K) (atol : Tol K)
-    (hg : UnrepairedGuard act des atol)
-    (hsa : 0 < act.unit.scale) (hsd : 0 < des.unit.scale) (hst : TolScalePos atol)
-    (hoa : act.unit.offset = 0) (hod : des.unit.offset = 0) (hot : TolLinear atol)
-    (hr : 0 ≤ rtol) (ha : 0 ≤ atol.value) :
-    allcloseQ fixed act des (.bare rtol) atol = .ok true ↔ AllcloseSpecHolds act des rtol atol := by
-  cases fixed with
-  | true => exact allclose_iff_spec act des rtol atol hsa hsd hst hoa hod hot hr ha
-  | false =>
-    rw [allclose_unrepaired_iff_actual_unit_spec act des rtol atol hsa hst hoa hod hot hr ha]
-    unfold AllcloseSpecActualUnit AllcloseSpecHolds Ref.allcloseSpec
-    cases atol with
-    | qty x u => simp [Ref.atolReadIn, tolOwn]
-    | bare x =>
-      simp only [Ref.atolReadIn, tolOwn, Option.getD_none, Tol.value]
-      rcases hg with h0 | hs
-      · subst h0
-        constructor
-        · rintro ⟨ps, hps, h1, _, hall⟩
-          exact ⟨ps, hps, h1, trivial, fun p hp => by simpa using hall p hp⟩
-        · rintro ⟨ps, hps, h1, _, hall⟩
-          exact ⟨ps, hps, h1, h1, fun p hp => by simpa using hall p hp⟩
-      · rw [hs]
-        constructor
-        · rintro ⟨ps, hps, h1, _, hall⟩
-          exact ⟨ps, hps, h1, trivial, hall⟩
-        · rintro ⟨ps, hps, h1, _, hall⟩
-          exact ⟨ps, hps, h1, h1, hall⟩
-
-
 /-! ### the full statement for the code as it currently is -/
+
+/-- the dimensionless number a relative tolerance denotes: its bare number, times the scale of
+    its unit when it has one (`1 percent` is 0.01) -/
+def rtolSI : Tol K → K
+  | .bare x => x
+  | .qty x u => x * u.scale
+
+/-- **`rtol_read_by_dimensionless_value`**: an `rtol` given as a dimensionless quantity acts as
+    the number it denotes, whatever dimensionless unit it is written in -/
+theorem rtol_read_by_dimensionless_value (fixed : Bool) (act des : Qty K) (r : K) (u : TUnit K)
+    (atol : Tol K) (hd : u.dim = Dim.one) (ho : u.offset = 0) :
+    allcloseQ fixed act des (.qty r u) atol = allcloseQ fixed act des (.bare (r * u.scale)) atol := by
+  have h : rtolNumber (Tol.qty r u) = rtolNumber (Tol.bare (r * u.scale) : Tol K) := by
+    simp only [rtolNumber]
+    rw [convVal_linear u nullUnit r ho rfl]
+    simp [nullUnit]
+  have e : rtolDim (Tol.qty r u) = rtolDim (Tol.bare (r * u.scale) : Tol K) := by
+    simp [rtolDim, hd]
+  unfold allcloseQ
+  rw [h, e]
 
 /-- `allclose_units` on two quantities is `allcloseQ` with the regenerated flag -/
 theorem allcloseUnits_qty [UnitClose K] (act des : Qty K) (rtol atol : Tol K) :
@@ -297,50 +242,38 @@ theorem allcloseUnits_qty [UnitClose K] (act des : Qty K) (rtol atol : Tol K) :
 
 /-- **the full statement** about `allclose_units` as the source currently is (the flag is
     regenerated from `/repo` on every run): for every ordered field, all values, shapes, units
-    and tolerances, the verdict is the documented one -/
+    and tolerances — `rtol` bare or in any dimensionless unit, `atol` bare or in any unit — the
+    verdict is the documented one -/
 def C19_full : Prop :=
   ∀ (K : Type) [Field K] [LinearOrder K] [IsStrictOrderedRing K] [UnitClose K]
-    (act des : Qty K) (rtol : K) (atol : Tol K),
+    (act des : Qty K) (rtol atol : Tol K),
     0 < act.unit.scale → 0 < des.unit.scale → TolScalePos atol →
-    act.unit.offset = 0 → des.unit.offset = 0 → TolLinear atol → 0 ≤ rtol → 0 ≤ atol.value →
-    (allcloseUnits (.qty act) (.qty des) (.bare rtol) atol = .ok true ↔
-      AllcloseSpecHolds act des rtol atol)
+    act.unit.offset = 0 → des.unit.offset = 0 → TolLinear atol →
+    rtolDim rtol = Dim.one → TolLinear rtol → 0 ≤ rtolSI rtol → 0 ≤ atol.value →
+    (allcloseUnits (.qty act) (.qty des) rtol atol = .ok true ↔
+      AllcloseSpecHolds act des (rtolSI rtol) atol)
 
-/-- once unyt reads a bare `atol` in `desired`'s unit, the full statement is a theorem -/
+/-- when unyt reads a bare `atol` in `desired`'s unit, the full statement is a theorem -/
 theorem C19_full_of_repaired (h : Generated.bareAtolInDesiredUnit = true) : C19_full := by
-  intro K _ _ _ _ act des rtol atol hsa hsd hst hoa hod hot hr ha
+  intro K _ _ _ _ act des rtol atol hsa hsd hst hoa hod hot hrd hrl hr ha
   rw [allcloseUnits_qty, h]
-  exact allclose_iff_spec act des rtol atol hsa hsd hst hoa hod hot hr ha
+  cases rtol with
+  | bare r => exact allclose_iff_spec act des r atol hsa hsd hst hoa hod hot hr ha
+  | qty r u =>
+    rw [rtol_read_by_dimensionless_value true act des r u atol hrd hrl]
+    exact allclose_iff_spec act des (r * u.scale) atol hsa hsd hst hoa hod hot hr ha
 
-/-- whatever the flag says, inside the guard the live code gives the documented verdict -/
-theorem C19_partial [UnitClose K] (act des : Qty K) (rtol : K) (atol : Tol K)
-    (hg : UnrepairedGuard act des atol)
-    (hsa : 0 < act.unit.scale) (hsd : 0 < des.unit.scale) (hst : TolScalePos atol)
-    (hoa : act.unit.offset = 0) (hod : des.unit.offset = 0) (hot : TolLinear atol)
-    (hr : 0 ≤ rtol) (ha : 0 ≤ atol.value) :
-    allcloseUnits (.qty act) (.qty des) (.bare rtol) atol = .ok true ↔
-      AllcloseSpecHolds act des rtol atol := by
-  rw [allcloseUnits_qty]
-  exact allclose_iff_spec_partial _ act des rtol atol hg hsa hsd hst hoa hod hot hr ha
+/-- **`C19_allclose_full`** — the full statement holds for the source as it is: the flag
+    regenerated from `/repo` says that a bare `atol` is read in `desired`'s unit (this obligation
+    stops checking the moment the translator reads anything else off the live function) -/
+theorem C19_allclose_full : C19_full := C19_full_of_repaired rfl
 
-/-- the witness: `actual = 1 m`, `desired = 150 cm`, `rtol = 0`, bare `atol = 0.6` -/
+/-- the witness of the repaired defect: `actual = 1 m`, `desired = 150 cm`, `rtol = 0`, bare
+    `atol = 0.6` -/
 def witnessAct : Qty ℚ := ⟨[1], true, ⟨1, 0, Dim.dLength⟩⟩
 def witnessDes : Qty ℚ := ⟨[150], true, ⟨1 / 100, 0, Dim.dLength⟩⟩
 
-/-- on the pinned commit `allclose_units(1 m, 150 cm, rtol=0, atol=0.6)` is `True` … -/
-theorem unrepaired_witness_true :
-    allcloseQ false witnessAct witnessDes (.bare 0) (.bare (6 / 10)) = .ok true := by
-  rw [allcloseQ_iff_si false witnessAct witnessDes 0 (.bare (6 / 10)) (by norm_num [witnessAct])
-    rfl rfl trivial]
-  refine ⟨[(1, 150)], rfl, rfl, rfl, ?_⟩
-  intro p hp
-  simp only [List.mem_singleton] at hp
-  subst hp
-  left
-  simp only [Ref.closeSI, absK_eq_abs, atolUnit, bareAtolUnit, witnessAct, witnessDes, Tol.value]
-  norm_num [abs_le]
-
-/-- … although 0.5 m is not within 0.6 cm: the documented contract fails -/
+/-- 0.5 m is not within 0.6 cm: the documented contract fails for the witness … -/
 theorem witness_spec_false :
     ¬ AllcloseSpecHolds witnessAct witnessDes 0 (.bare (6 / 10)) := by
   rintro ⟨ps, hps, _, _, hall⟩
@@ -353,33 +286,15 @@ theorem witness_spec_false :
     Option.getD_none] at h
   norm_num [abs_le] at h
 
-/-- **`C19_counterexample`**: as long as the flag regenerated from the source says that a bare
-    `atol` is read in `actual`'s unit, the full statement is false -/
-theorem C19_counterexample_of_unrepaired (h : Generated.bareAtolInDesiredUnit = false) :
-    ¬ C19_full := by
-  intro hfull
-  have := @hfull ℚ _ _ _ _ witnessAct witnessDes 0 (.bare (6 / 10))
-    (by norm_num [witnessAct]) (by norm_num [witnessDes]) trivial rfl rfl trivial le_rfl
-    (by norm_num [Tol.value])
-  rw [allcloseUnits_qty, h] at this
-  exact witness_spec_false (this.mp unrepaired_witness_true)
-
-/-- and the same call with the arguments swapped is `False` on the pinned commit: the verdict
-    depends on which argument is written in which unit -/
-theorem unrepaired_witness_swapped_false :
-    allcloseQ false witnessDes witnessAct (.bare 0) (.bare (6 / 10)) ≠ .ok true := by
-  rw [Ne, allcloseQ_iff_si false witnessDes witnessAct 0 (.bare (6 / 10))
-    (by norm_num [witnessDes]) rfl rfl trivial]
-  rintro ⟨ps, hps, _, _, hall⟩
-  have : ps = [(150, 1)] := by
-    have h : broadcast2 witnessDes.vals witnessAct.vals = some [(150, 1)] := rfl
-    rw [h] at hps; exact (Option.some.inj hps).symm
-  subst this
-  have h := hall (150, 1) (by simp)
-  simp only [Ref.closeSI, absK_eq_abs, atolUnit, bareAtolUnit, witnessAct, witnessDes,
-    Tol.value] at h
-  norm_num [abs_le] at h
-
+/-- … so `allclose_units(1 m, 150 cm, rtol=0, atol=0.6)` does not say `True` (it did before the
+    repair, and said `False` with the arguments swapped) -/
+theorem witness_not_accepted :
+    allcloseUnits (.qty witnessAct) (.qty witnessDes) (.bare 0) (.bare (6 / 10)) ≠ .ok true := by
+  intro h
+  exact witness_spec_false
+    ((C19_allclose_full ℚ witnessAct witnessDes (.bare 0) (.bare (6 / 10))
+      (by norm_num [witnessAct]) (by norm_num [witnessDes]) trivial rfl rfl trivial rfl trivial
+      (by norm_num [rtolSI]) (by norm_num [Tol.value])).mp h)
 
 /-! ### the verdict depends on the SI magnitudes only: re-expression invariance -/
 
@@ -612,14 +527,15 @@ example :
   allclose_iff_spec witnessDes witnessAct 0 (.bare (6 / 10)) (by norm_num [witnessDes])
     (by norm_num [witnessAct]) trivial rfl rfl trivial le_rfl (by norm_num [Tol.value])
 
-/-- `C19_partial` with an `atol` of 60 cm given as a quantity (inside the guard) -/
+/-- `C19_allclose_full` with `rtol = 1 percent` and an `atol` of 60 cm given as a quantity -/
 example :
-    allcloseUnits (.qty witnessAct) (.qty witnessDes) (.bare 0)
+    allcloseUnits (.qty witnessAct) (.qty witnessDes) (.qty 1 ⟨1 / 100, 0, Dim.one⟩)
         (.qty 60 ⟨1 / 100, 0, Dim.dLength⟩) = .ok true ↔
-      AllcloseSpecHolds witnessAct witnessDes 0 (.qty 60 ⟨1 / 100, 0, Dim.dLength⟩) :=
-  C19_partial witnessAct witnessDes 0 (.qty 60 ⟨1 / 100, 0, Dim.dLength⟩) trivial
+      AllcloseSpecHolds witnessAct witnessDes (1 * (1 / 100)) (.qty 60 ⟨1 / 100, 0, Dim.dLength⟩) :=
+  C19_allclose_full ℚ witnessAct witnessDes (.qty 1 ⟨1 / 100, 0, Dim.one⟩)
+    (.qty 60 ⟨1 / 100, 0, Dim.dLength⟩)
     (by norm_num [witnessAct]) (by norm_num [witnessDes]) (by norm_num [TolScalePos]) rfl rfl rfl
-    le_rfl (by norm_num [Tol.value])
+    rfl rfl (by norm_num [rtolSI]) (by norm_num [Tol.value])
 
 /-- `verdict_invariant_reexpress_both_qty_atol`: 1 m → 100 cm, 150 cm → 0.0015 km -/
 example :
